@@ -573,6 +573,11 @@ class SDec:
 
     def __add__(self, o):
         return SDec(self.x + SDec._v(o))
+    __radd__ = __add__
+
+    def __rsub__(self, o):
+        # concrete Decimal - symbolic decimal
+        return SDec(SDec._v(o) - self.x)
 
     def __lt__(self, o):
         return self.x < SDec._v(o)
